@@ -16,15 +16,31 @@ def strip_wide_cast(t):
     while t[0] == "app" and t[1].startswith("cast:") and len(t[2]) == 1:
         to_bits, to_signed = int_bits(t[1][5:])
         inner = t[2][0]
-        ity = term_type(inner)
-        if ity is None and inner[0] == "app" and inner[1].startswith("cast:"):
-            ity = inner[1][5:]
+        ity = infer_type(inner)
         ib, isg = int_bits(ity or "")
         if to_bits and ib and ib <= to_bits and not isg:
             t = inner
             continue
         break
     return t
+
+
+def infer_type(t):
+    """integer type of a term: its own annotation, a cast's target, or the (homogeneous) operand type of an arithmetic operator"""
+    ty = term_type(t)
+    if ty:
+        return ty
+    if t[0] == "int":
+        return t[2]
+    if t[0] == "app":
+        if t[1].startswith("cast:"):
+            return t[1][5:]
+        if t[1] in ("Add", "Sub", "Mul", "Div", "Rem", "Shr", "Shl", "BitAnd", "BitOr", "BitXor", "div_ceil", "next_multiple_of", "min", "max") and t[2]:
+            for x in t[2][:1] if t[1] in ("Shr", "Shl") else t[2]:
+                r = infer_type(x)
+                if r:
+                    return r
+    return None
 
 
 # polynomial: dict {monomial: coeff}; monomial = tuple(sorted(atom reprs)) with atoms kept in a side table
